@@ -83,6 +83,7 @@ def election_corpus(tier, seed):
     inputs = EL.family_inputs(rng, "oneshot", cands, 1, D.INT_W(2) + [[1, 2], [1, 3]], per_bag=12 if q else None)
     inputs += EL.family_inputs(rng, "oneshot", cands, 2, [[1, 1], [2, 1]], per_bag=2 if q else 10)
     inputs += EL.family_sampled(rng, "oneshot", 300 if q else 6000, (4, 5), 5)
+    inputs += EL.partial_tie_inputs(rng, "oneshot", 80 if q else 1500)
     return EL.add_slow_slice(rng, inputs, 100 if q else 1000)
 
 
